@@ -108,3 +108,23 @@ Proof.
         exists t. split; [now right | exact Et].
     + split; [|reflexivity]. intros _. exists (w, fs, nbs). split; [now left | exact E1].
 Qed.
+
+(* ---------- what is proved about optimality WITHOUT assuming anything about the assignment oracle ---------- *)
+(* (1) the run-time check of the correspondence, in its exact form: a permutation whose score equals the brute-force
+   optimum dominates every matching *)
+Theorem checked_assignment_optimal r (C : mat R) p :
+  score Rops r C p = score Rops r C (best_perm Rops r C) -> forall q, is_perm r q -> score Rops r C q <= score Rops r C p.
+Proof. intros E q Hq. rewrite E. now apply best_perm_max. Qed.
+
+(* (2) the model with the brute force plugged in for linear_sum_assignment: the returned value is the maximum over all
+   matchings and the returned permutation attains it -- no hypothesis on any oracle *)
+Theorem congruence_brute_force_is_max absv As Bs nas nbs v p :
+  congruence Rops absv As Bs nas nbs (fun C => best_perm Rops (nrows C) C) = Ok (v, p) ->
+  let r := ncols (hd [] As) in let C := cong_all Rops absv r (zip_modes As Bs nas nbs) in
+  is_perm r p /\ v = score Rops r C p /\ forall q, is_perm r q -> score Rops r C q <= v.
+Proof.
+  intros H.
+  assert (Hc : lsa_contract (fun C => best_perm Rops (nrows C) C)).
+  { intros r C <-. split; [apply best_perm_is_perm | intros q Hq; now apply best_perm_max]. }
+  destruct (congruence_is_max _ _ _ _ _ _ _ _ H Hc) as (A & B & _ & D). cbv zeta. auto.
+Qed.
